@@ -129,8 +129,9 @@ class AnnotationCollection(AbstractFeatureIntervalCollection):
                     end = chrom_parent.location.end
 
             # if we have children, and the above did not work, then use the children
-            # cannot infer a range for an empty collection
-            if start is None and not self.is_empty:
+            # cannot infer a range for an empty collection (is_empty does not count variant collections, so look at
+            # the children themselves: a collection may hold nothing but variant collections)
+            if start is None and self.children:
                 start = min(f.start for f in self.iter_children())
                 end = max(f.end for f in self.iter_children())
 
